@@ -449,6 +449,10 @@ struct Ctx {
   std::atomic<int> async_pending {0};
   std::atomic<int> phase {0};  // 0 idle, 1 run()/get(), 2 wait()
   std::atomic<int> ext_result {0};  // 1 external injection won the data, 2 lost
+  // Rendezvous of the producer's emit() and the external injector's emit() on the same data (relaxed: adds no
+  // happens-before edge): both callers arrive, then call emit() within a few hundred cycles of each other. Added
+  // after the seeded change C05-a2 (GraphData::acquire CAS -> load+store, a two-instruction window) escaped.
+  std::atomic<int> ext_rdv {0};
   // async job queue
   std::mutex amu;
   std::condition_variable acv;
@@ -666,6 +670,19 @@ struct ProcCore {
     (void)vx;
   }
 
+  void ext_rendezvous() {
+    Ctx& c = *ctx;
+    int before = c.ext_rdv.fetch_add(1, std::memory_order_relaxed);
+    uint64_t t0 = __rdtsc();
+    while (c.ext_rdv.load(std::memory_order_relaxed) < 2 && __rdtsc() - t0 < 600000) _mm_pause();  // <= ~0.2 ms
+    if (c.ext_rdv.load(std::memory_order_relaxed) >= 2) {
+      if (before == 1) VF_COUNT("rare:ext_emit_rendezvous_met");
+      uint64_t skew = vf::tl_rng().below(700);
+      t0 = __rdtsc();
+      while (__rdtsc() - t0 < skew) {}
+    }
+  }
+
   void emit_one(GraphVertex& vx, size_t j, uint64_t h) {
     Ctx& c = *ctx;
     const VSpec& vs = c.spec.v[size_t(vid)];
@@ -694,6 +711,7 @@ struct ProcCore {
       vf::perturb("cb:before_commit");
       committer.release();
     };
+    if (c.plan.ext_data == d) ext_rendezvous();
     if (is_bool) body(gd->emit<bool>());
     else body(gd->emit<uint64_t>());
   }
@@ -727,6 +745,7 @@ struct ProcCore {
       vf::perturb("cb:before_commit");
       committer.release();
     };
+    ext_rendezvous();
     if (is_bool) body(c.gd[size_t(d)]->emit<bool>());
     else body(c.gd[size_t(d)]->emit<uint64_t>());
   }
@@ -970,6 +989,7 @@ void run_cycle(Ctx& c, vf::Rng& r, const std::vector<std::string>& stall_points)
     c.side[d] = 0;
   }
   c.ext_result.store(0, std::memory_order_relaxed);
+  c.ext_rdv.store(0, std::memory_order_relaxed);
   c.cb_calls = 0;
   c.policy = vf::draw_policy(r, stall_points, 40, 4000);
   vf::watchdog().set_context(c.describe());
